@@ -140,6 +140,28 @@ def programs(tier, seed, base):
         progs.append(("gen/%d/%d" % (seed, i), gen.generate(seed, base + i, max_choices=7)))
     for i in range(15 if tier == "quick" else 200):
         progs.append(("graph/%d/%d" % (seed, i), gen.graph_program(random.Random("c03/%s/%s" % (seed, i)))))
+    # explicit disjunctions in clause bodies on a positive cycle (EvalOr buffering / createCycle), written as raw
+    # text: the AST of the reference generators has no ';' - none is needed for a run-vs-run identity
+    from vlib.gen import A
+    for i in range(20 if tier == "quick" else 300):
+        r = random.Random("c03or/%s/%s" % (seed, i))
+        prog = [("ad", [("p1", A("a"))], []), ("ad", [("p2", A("b"))], []), ("ad", [("p3", A("f"))], [])]
+        prog.append(("rule", A("e", "1"), [(A("a"), False)]))
+        if r.random() < 0.7:
+            prog.append(("rule", A("e", "1"), [(A("b"), False)]))
+        if r.random() < 0.4:
+            prog.append(("rule", A("e", "2"), [(A("b"), False)]))
+        d1, d2 = ("e(X)", "q(X)") if r.random() < 0.5 else ("q(X)", "e(X)")
+        extra = r.choice(["", "", ", dom(X)", " ; u(X)"])
+        prog.append(("raw", "p(X) :- (%s ; %s%s)." % (d1, d2, extra if extra.startswith(" ;") else "")))
+        prog.append(("raw", "q(X) :- p(X)%s." % (extra if extra.startswith(",") else "")))
+        prog.append(("raw", "q(1) :- f."))
+        prog.append(("raw", "dom(1). dom(2). u(2) :- a."))
+        qs = ["query(e(1)).", "query(p(1)).", "query(q(1))."]
+        r.shuffle(qs)
+        for q in qs[: r.randint(2, 3)]:
+            prog.append(("raw", q))
+        progs.append(("bodyor/%d/%d" % (seed, i), prog))
     return progs
 
 
